@@ -23,5 +23,6 @@ CONSTANTS
   UseTCP = FALSE
   ChanUnderLock = TRUE
   AckChanCheck = TRUE
+  Urgent = FALSE
 INVARIANTS TypeOK ObsQuiet ClosedMeansClosed
 CHECK_DEADLOCK FALSE
